@@ -21,18 +21,29 @@ Definition any_sx : sx := SL [sx_id "r"; sx_id "any"].
 
 Definition nlen {A} (l : list A) : N := N.of_nat (length l).
 
+(* a bytes argument: one atom xHEX, or a list of such atoms (chunks; Sx.v reverses every atom with the quadratic
+   List.rev, so long inputs arrive in pieces) *)
+Definition as_chunks (x : sx) : option bytes :=
+  match x with
+  | SA _ => as_bytes x
+  | SL l => option_map (@concat byte) (omap as_bytes l)
+  end.
+
+(* the parser models are quadratic in the extracted runner: beyond this size only the implementation is run *)
+Definition MODEL_MAX : N := 6000.
+
 Definition run (x : sx) : sx :=
   match x with
   | SL (_ :: SA kind :: args) =>
     if bytes_eqb kind (bs "a85") then
       match args with
-      | [d] => match as_bytes d with Some b => m_sx (sa85 b) | None => sx_id "badcase" end
+      | [d] => match as_chunks d with Some b => m_sx (sa85 b) | None => sx_id "badcase" end
       | _ => sx_id "badcase"
       end
     else if bytes_eqb kind (bs "frame") then
       match args with
       | [bx; px; d] =>
-        match as_N bx, as_N px, as_bytes d with
+        match as_N bx, as_N px, as_chunks d with
         | Some bpp, Some ppr, Some b => m_sx (sdecode_frame b bpp ppr)
         | _, _, _ => sx_id "badcase"
         end
@@ -41,7 +52,7 @@ Definition run (x : sx) : sx :=
     else if bytes_eqb kind (bs "pred") then
       match args with
       | [p; c; k; b; d] =>
-        match as_Z p, as_Z c, as_Z k, as_Z b, as_bytes d with
+        match as_Z p, as_Z c, as_Z k, as_Z b, as_chunks d with
         | Some p, Some c, Some k, Some b, Some d => m_sx (spredictor p c k b d)
         | _, _, _, _, _ => sx_id "badcase"
         end
@@ -49,13 +60,13 @@ Definition run (x : sx) : sx :=
       end
     else if bytes_eqb kind (bs "textstr") then
       match args with
-      | [d] => match as_bytes d with Some b => m_sx (stext_string b) | None => sx_id "badcase" end
+      | [d] => match as_chunks d with Some b => m_sx (stext_string b) | None => sx_id "badcase" end
       | _ => sx_id "badcase"
       end
     else if bytes_eqb kind (bs "cmap") then
       match args with
       | [c; t] =>
-        match as_bytes c, as_bytes t with
+        match as_chunks c, as_chunks t with
         | Some c, Some t =>
           match cmap_parse c with
           | ParseOk cm => m_sx (scmap_text cm t)
@@ -70,8 +81,9 @@ Definition run (x : sx) : sx :=
     else if bytes_eqb kind (bs "content") then
       match args with
       | [d] =>
-        match as_bytes d with
+        match as_chunks d with
         | Some b =>
+          if (MODEL_MAX <? nlen b)%N then any_sx else
           match decode_content b with
           | DecOk ops => plain_sx (SOk (nlen ops))
           | DecErr => plain_sx SErr
@@ -85,11 +97,12 @@ Definition run (x : sx) : sx :=
     else if bytes_eqb kind (bs "objstm") then
       match args with
       | [dx; c] =>
-        match dict_of_sx dx, as_bytes c with
+        match dict_of_sx dx, as_chunks c with
         | Some d, Some c =>
           match dict_get d (bs "Filter") with
           | Some _ => any_sx
           | None =>
+            if (MODEL_MAX <? nlen c)%N then any_sx else
             match objstm_plain d c with
             | OsOk m => plain_sx (SOk (nlen m))
             | OsErr _ => plain_sx SErr
@@ -102,7 +115,7 @@ Definition run (x : sx) : sx :=
     else if bytes_eqb kind (bs "xrefstm") then
       match args with
       | [dx; c] =>
-        match dict_of_sx dx, as_bytes c with
+        match dict_of_sx dx, as_chunks c with
         | Some d, Some c =>
           match dict_get d (bs "Filter") with
           | Some _ => any_sx
